@@ -20,6 +20,7 @@ import (
 	"k8s.io/apimachinery/pkg/runtime"
 	"k8s.io/apimachinery/pkg/runtime/schema"
 	"k8s.io/apimachinery/pkg/types"
+	"k8s.io/client-go/discovery"
 	"sigs.k8s.io/controller-runtime/pkg/client"
 
 	corev1alpha1 "package-operator.run/apis/core/v1alpha1"
@@ -181,6 +182,48 @@ type Scn struct {
 	Objects []PObj     `json:"objects"`
 	Store   []SObj     `json:"store"`
 	Env     []EnvOp    `json:"env"`
+	// MapErr (optional, additive): the kinds for which every REST-mapper lookup of THIS pass is answered
+	// with a transient error (API discovery degraded) — an error that is NOT "no such kind" (NoMatch).
+	// MapErrClass picks the concrete error (MapperError); the model does not read it.
+	MapErr      []string `json:"mapErr,omitempty"`
+	MapErrClass string   `json:"mapErrClass,omitempty"`
+}
+
+// MapErrClasses are the concrete errors a failing REST-mapper lookup is answered with.
+var MapErrClasses = []string{"Discovery", "Timeout", "ServiceUnavailable", "Plain"}
+
+// MapperError builds the error of a failing REST-mapper lookup: anything but a NoMatch error.
+func MapperError(class string, gk schema.GroupKind) error {
+	switch class {
+	case "Timeout":
+		return apierrors.NewTimeoutError("scripted discovery timeout", 1)
+	case "ServiceUnavailable":
+		return apierrors.NewServiceUnavailable("scripted discovery outage")
+	case "Plain":
+		return fmt.Errorf("scripted: discovery of %s failed", gk)
+	}
+	// what the (lazy) discovery REST mapper answers while an aggregated API service is down
+	return &discovery.ErrGroupDiscoveryFailed{Groups: map[schema.GroupVersion]error{
+		{Group: "metrics.k8s.io", Version: "v1beta1"}: errors.New("the server is currently unable to handle the request"),
+	}}
+}
+
+// MapperFaultFor is the Store.MapperFault hook of a pass: lookups of the listed kinds (group verif.io) fail.
+func MapperFaultFor(kinds []string, class string) func(gk schema.GroupKind) error {
+	if len(kinds) == 0 {
+		return nil
+	}
+	return func(gk schema.GroupKind) error {
+		if gk.Group != Group {
+			return nil
+		}
+		for _, k := range kinds {
+			if k == gk.Kind {
+				return MapperError(class, gk)
+			}
+		}
+		return nil
+	}
 }
 
 // ---------- flavours are provided by the in-package tests
@@ -653,6 +696,7 @@ func Exec(scheme *runtime.Scheme, fl Flavour, s Scn) string {
 	env.Store.DryRunVerdict = func(u *unstructured.Unstructured) error {
 		return DryRunError(verdicts[u.GetKind()+"/"+u.GetName()], u)
 	}
+	env.Store.MapperFault = MapperFaultFor(s.MapErr, s.MapErrClass)
 	writes := 0
 	env.Store.BeforeWrite = func(*verifstore.Request) {
 		for _, e := range s.Env {
